@@ -56,6 +56,17 @@ func c02Leaf(r *core.Rng) *LeafDesc {
 		return &LeafDesc{Tag: "name", S: c02Texts[r.Intn(13)]}
 	case 8:
 		return &LeafDesc{Tag: "duration", I: int64(r.Intn(100000)+1) * 1000000}
+	case 9:
+		// values of defined types that have no String method of their own
+		switch r.Intn(4) {
+		case 0:
+			return &LeafDesc{Tag: "named-int", I: int64(r.Intn(2000)) - 1000}
+		case 1:
+			return &LeafDesc{Tag: "named-bool", B: r.Bool()}
+		case 2:
+			return &LeafDesc{Tag: "named-float", F: float64(r.Intn(4000)-2000) / 16}
+		}
+		return &LeafDesc{Tag: "named-str", S: c02Texts[r.Intn(len(c02Texts))]}
 	}
 	return &LeafDesc{Tag: "str", S: c02Texts[r.Intn(len(c02Texts))]}
 }
